@@ -76,6 +76,7 @@ func (g *gen) stubs(ix *astIndex, outDir string) {
 		}
 		fimports := g.importsOf(f)
 		var installs []string
+		var setterRows []string
 		for _, m := range it.Methods.List {
 			if len(m.Names) == 0 {
 				continue
@@ -135,6 +136,13 @@ func (g *gen) stubs(ix *astIndex, outDir string) {
 						}
 					}
 				}
+				if strings.HasPrefix(reqArg, "a") {
+					for _, pp := range params {
+						if strings.Contains(pp, "*") {
+							setterRows = append(setterRows, fmt.Sprintf("\t\t%q: %q,\n", strings.TrimPrefix(pp[strings.IndexByte(pp, '*'):], "*"), name))
+						}
+					}
+				}
 				resType := "ocpp.Response"
 				if hft.Results != nil && len(hft.Results.List) > 0 {
 					resType = qualify(hft.Results.List[0].Type, alias)
@@ -145,13 +153,18 @@ func (g *gen) stubs(ix *astIndex, outDir string) {
 			installs = append(installs, fmt.Sprintf("\tif !skip[%q] {\n\t\tep.%s(&%s{rec})\n\t}\n", name, name, tname))
 		}
 		body.WriteString(fmt.Sprintf("// Install%s registers a recording stub for every handler interface of the role, except the setters named in skip.\nfunc Install%s(ep %s, rec *Recorder, skip map[string]bool) {\n%s}\n\n", r.id, r.id, r.epType, strings.Join(installs, "")))
-		var setters []string
-		for _, m := range it.Methods.List {
-			if len(m.Names) > 0 && strings.HasPrefix(m.Names[0].Name, "Set") && strings.HasSuffix(m.Names[0].Name, "Handler") {
-				setters = append(setters, m.Names[0].Name)
-			}
+		body.WriteString(fmt.Sprintf("var handlerSetter%s = map[string]string{\n%s}\n\n", r.id, strings.Join(setterRows, "")))
+		body.WriteString(fmt.Sprintf("var setters%s = []string{", r.id))
+		for _, ins := range installs {
+			k := strings.Index(ins, "skip[\"")
+			name := ins[k+6:]
+			name = name[:strings.IndexByte(name, '"')]
+			body.WriteString(fmt.Sprintf("%q, ", name))
 		}
+		body.WriteString("}\n\n")
 	}
+	body.WriteString("// HandlerSetter: request type (generated import alias + type name) -> the setter whose handler interface has a method taking it.\nfunc HandlerSetter(role int) map[string]string {\n\tswitch role {\n\tcase 0:\n\t\treturn handlerSetter16CP\n\tcase 1:\n\t\treturn handlerSetter16CS\n\tcase 2:\n\t\treturn handlerSetter201CS\n\t}\n\treturn handlerSetter201CSMS\n}\n\n")
+	body.WriteString("// Setters lists the handler setters of a role (0 cp16, 1 cs16, 2 cs201, 3 csms201).\nfunc Setters(role int) []string {\n\tswitch role {\n\tcase 0:\n\t\treturn setters16CP\n\tcase 1:\n\t\treturn setters16CS\n\tcase 2:\n\t\treturn setters201CS\n\t}\n\treturn setters201CSMS\n}\n")
 	var hdr strings.Builder
 	hdr.WriteString("// Code generated by verif/tools/cmd/extract from the handler interfaces of the current /repo tree. DO NOT EDIT.\n\npackage stubs\n\nimport (\n")
 	hdr.WriteString("\t\"github.com/lorenzodonini/ocpp-go/ocpp\"\n\tocpp16 \"github.com/lorenzodonini/ocpp-go/ocpp1.6\"\n\tocpp2 \"github.com/lorenzodonini/ocpp-go/ocpp2.0.1\"\n")
